@@ -401,6 +401,12 @@ func (r *CPUSuppress) adjustByCPUSet(cpusetQuantity *resource.Quantity, nodeCPUI
 	if cpus-int32(len(oldCPUSet)) > beMaxIncreaseCpuNum {
 		cpus = int32(len(oldCPUSet)) + beMaxIncreaseCpuNum
 	}
+	if availableCPUs := len(lsrCpus) + len(lsCpus); int(cpus) > availableCPUs {
+		// not enough cpus outside the reserved, system qos exclusive and LSE-owned ones (possibly none at all):
+		// keep the current cpuset instead of applying the share of one pool only
+		klog.Warningf("suppressBECPU skipped, available cpus is not enough, want cpus %v but got %v", cpus, availableCPUs)
+		return
+	}
 	var beCPUSet []int32
 	lsrCpuNums := int32(int(cpus) * len(lsrCpus) / (len(lsrCpus) + len(lsCpus)))
 
